@@ -91,9 +91,27 @@ func (f *fakeS3) DeleteObjectWithContext(ctx aws.Context, in *s3.DeleteObjectInp
 	return nil, errors.New("fake s3: delete is not part of the node-store contract")
 }
 
+// ctxBody is a response body that, like the body of a real HTTP response, cannot be read any more once the
+// context of its request has ended.
+type ctxBody struct {
+	ctx aws.Context
+	rc  io.ReadCloser
+}
+
+func (b ctxBody) Read(p []byte) (int, error) {
+	if err := b.ctx.Err(); err != nil {
+		return 0, err
+	}
+	return b.rc.Read(p)
+}
+func (b ctxBody) Close() error { return b.rc.Close() }
+
 func (f *fakeS3) GetObjectWithContext(ctx aws.Context, in *s3.GetObjectInput, opts ...request.Option) (*s3.GetObjectOutput, error) {
 	f.mu.Lock()
 	out, err := f.getLocked(in)
+	if out != nil && out.Body != nil {
+		out.Body = ctxBody{ctx: ctx, rc: out.Body}
+	}
 	hold, arrived := f.holdGet, f.getArrived
 	f.holdGet, f.getArrived = nil, nil
 	f.mu.Unlock()
@@ -276,6 +294,22 @@ func runC18(c C18Case, o *run.Obs) error {
 	}
 	model := map[string][]byte{}
 	sawEmpty, sawMissing, sawConcurrent := false, false, false
+	// byte slices handed out by earlier Loads: they are the caller's now and must keep their contents whatever the
+	// store does later
+	type heldSlice struct {
+		name string
+		b    []byte
+		when string
+	}
+	var held []heldSlice
+	checkHeld := func(when string) error {
+		for _, h := range held {
+			if want := model[h.name]; !bytes.Equal(h.b, want) {
+				return fmt.Errorf("%s %s: the %d bytes that Load(%q) returned at %s have changed since (the store overwrote a slice it had handed out)", desc, when, len(want), h.name, h.when)
+			}
+		}
+		return nil
+	}
 	load := func(when, name string) error {
 		var b []byte
 		var err error
@@ -295,7 +329,10 @@ func runC18(c C18Case, o *run.Obs) error {
 		if !bytes.Equal(b, want) {
 			return fmt.Errorf("%s %s: Load(%q) returned %d bytes, the %d bytes written differ", desc, when, name, len(b), len(want))
 		}
-		return nil
+		if len(held) < 8 {
+			held = append(held, heldSlice{name, b, when})
+		}
+		return checkHeld(when)
 	}
 	for i, op := range c.Ops {
 		name := c.Names[op.Name%len(c.Names)]
